@@ -183,19 +183,16 @@ end
 /-! ### reflection helpers -/
 
 /-- `Function::get_param_names` for a normal function -/
-def paramNames (rest : Bool) (params : Val) : List Name :=
+def paramNames (rest : Val) (params : Val) : List Name :=
   let ps := (listToVec params).getD []
   let nameOf (p : Val) : Name := match p.get with
     | .sym s => s.globalName
     | _      => cs!"#<invalid-parameter-name>"
-  if rest then
-    match ps.reverse with
-    | last :: initRev =>
-      (initRev.reverse.map nameOf) ++ (match last.get with
+  ps.map nameOf ++ (match rest.restParam? with
+    | some last => (match last.get with
         | .sym s => [cs!"&", s.globalName]
         | _      => [cs!"#<invalid-parameter-name>"])
-    | [] => []
-  else ps.map nameOf
+    | none => [])
 
 def metadataPlist (m : Meta) : Val :=
   let doc := Val.ofChars m.doc
@@ -398,7 +395,11 @@ def simpleNative (id : NativeId) (args : List Val) (depth : Nat) (st : St) : Out
       asList cs!"append" l2 st fun ys => (.ok (.ofList (xs ++ ys)), st)
   | .unrest => arity1 cs!"unrest" args st fun f =>
       match f.get with
-      | .fn k _ p b e m => (.ok (.fn k false p b e m), st)
+      | .fn k r p b e m =>
+        -- the rest parameter becomes an ordinary last parameter
+        (.ok (.fn k .nil (match r.restParam? with
+                          | some x => .ofList (((listToVec p).getD []) ++ [x])
+                          | none   => p) b e m), st)
       | .native _       => (.ok f, st)
       | _               => (.err (wrongType cs!"unrest" f .function), st)
   | .abort => arity0 cs!"abort" args (.err .nil, st) st
@@ -425,9 +426,13 @@ def simpleNative (id : NativeId) (args : List Val) (depth : Nat) (st : St) : Out
         if st.isGlobalDefined n then
           (.err (makeError cs!"already-defined" cs!"define" [(cs!"symbol", name)]), st)
         else
-          let stored := match name.getMeta with
-            | some m => Val.md value.unmeta { m with doc := d }
-            | none   => value
+          match (match name.getMeta with
+                 | some m => (match value.unmeta with
+                              | .md _ _ => none          -- `allocate_metadata` panics on metadata of metadata
+                              | inner   => some (Val.md inner { m with doc := d }))
+                 | none   => some value) with
+          | none => (.crash cs!"allocate_metadata: metadata of metadata", st)
+          | some stored =>
           let st1 := st.defineGlobal n stored
           let st2 :=
             if st1.isGlobalExported n then
@@ -493,7 +498,7 @@ def simpleNative (id : NativeId) (args : List Val) (depth : Nat) (st : St) : Out
   | .receive => arity0 cs!"receive" args
       (if st.attached then
         match st.inbox with
-        | []      => (.crash cs!"receive: blocks forever (no further debugger command)", st)
+        | []      => (.outOfFuel, st)     -- the real `recv()` blocks forever: never an outcome
         | c :: cs =>
           let st1 := { st with inbox := cs }
           if c.text == cs!"INTERRUPT" then (.err (makeError cs!"interrupted" cs!"receive" []), st1)
